@@ -160,6 +160,9 @@ func genC16Throttle(g *Gen) *Scn {
 	spec := c16Timeline(g, d, 8)
 	sc.Sources = []SrcSpec{spec}
 	c16Common(g, sc, c16ScriptSpan(spec)+1, 1)
+	if g.Bool(0.1) {
+		sc.SetInt("huge", g.Range(1, 2)) // the largest window there is
+	}
 	return sc
 }
 
@@ -970,6 +973,13 @@ func runC16Throttle(e *Env) {
 	sc := e.Sc
 	c16MustBeValid(sc)
 	d := dur(sc.Int("d", 1))
+	huge := sc.Int("huge", 0)
+	switch huge {
+	case 1:
+		d = time.Duration(math.MaxInt64) // "for ever": one window for the whole life of the subscription
+	case 2:
+		d = time.Duration(math.MaxInt64 - int64(30*time.Minute))
+	}
 	spec := sc.Sources[0]
 	src := e.NewSrc(spec)
 	var emits []c16Emit
@@ -980,6 +990,9 @@ func runC16Throttle(e *Env) {
 		return fmt.Sprintf("ThrottleTime(%su) mode=%s emitted(before the operator)=%s delivered=%s %s", c16U(d), spec.Mode, c16FmtEmits(emits), c16FmtRec(rec), s)
 	}
 	horizon := dur(c16ScriptSpan(spec)) + d + 4*Unit
+	if huge > 0 {
+		horizon = dur(c16ScriptSpan(spec)) + 8*Unit
+	}
 	ok := c16Play(e, s, o, rec.Observer(), func() int { return len(rec.Events) }, horizon, describe)
 	if !ok {
 		return
@@ -1001,7 +1014,7 @@ func runC16Throttle(e *Env) {
 	}
 	// "emits a value from the source Observable, then ignores subsequent source values for duration": the first
 	// value passes (the simulated process is one hour old, far beyond any window)
-	if s.CutKind == 0 {
+	if s.CutKind == 0 && huge == 0 {
 		var firstIn *c16Emit
 		for i := range emits {
 			if emits[i].K == 'N' {
